@@ -774,6 +774,9 @@ class TdmsChannel(object):
         if stop < 0:
             stop = self._length + stop
 
+        if step > 0 and start < 0:
+            start = 0
+
         # Check for empty ranges
         if stop == start:
             return np.empty((0, ), dtype=self.dtype)
